@@ -397,6 +397,52 @@ def icoToTree (kind : Nat) (imgs : List IcoImage) : Node :=
 
 def icoToResources (kind : Nat) (imgs : List IcoImage) : Resources := resourcesOf 0 (icoToTree kind imgs)
 
+/-! ### group resources (`RT_GROUP_ICON` / `RT_GROUP_CURSOR`) on the abstract tree
+
+Written from the GRPICONDIR / GRPICONDIRENTRY layout (the `.ico` directory with `nId` in place of the
+file offset) and from the documentation of `icons()` / `cursors()`, for ANY tree. -/
+
+/-- little-endian u16 at index `i` of a byte string -/
+def l16 (b : List UInt8) (i : Nat) : Nat := (b.getD i 0).toNat + 256 * (b.getD (i + 1) 0).toNat
+
+/-- a parsed GRPICONDIR: `idType` (1 = icon, 2 = cursor) and, per GRPICONDIRENTRY in stored order,
+`dwBytesInRes` and `nId` -/
+structure GroupSpec where
+  kind : Nat
+  entries : List (Nat × Nat)
+  deriving DecidableEq, Repr
+
+/-- The GRPICONDIR format: `idReserved = 0`, `idType ∈ {1, 2}`, `idCount`, followed by exactly
+`idCount` entries of 14 bytes (`dwBytesInRes` at offset 8, `nId` at offset 12) and nothing else.
+Too short / wrong total length: `Bounds`; wrong reserved word or type: `BadMagic`. -/
+def parseGroup (blob : List UInt8) : Except Err GroupSpec :=
+  if blob.length < 6 then .error .bounds
+  else if l16 blob 0 ≠ 0 ∨ ¬ (l16 blob 2 = 1 ∨ l16 blob 2 = 2) then .error .badMagic
+  else if blob.length ≠ 6 + 14 * l16 blob 4 then .error .bounds
+  else .ok ⟨l16 blob 2, (List.range (l16 blob 4)).map fun i =>
+    (l16 blob (6 + 14 * i + 10) * 0x10000 + l16 blob (6 + 14 * i + 8), l16 blob (6 + 14 * i + 12))⟩
+
+/-- the resource type holding the images of a group: `RT_ICON` for icons, `RT_CURSOR` for cursors -/
+def GroupSpec.imageType (g : GroupSpec) : Nat := if g.kind = 1 then RT_ICON else RT_CURSOR
+
+/-- the group data below an entry of the group directory: the entry must be a directory (`UnDataEntry`),
+its first child (`NotFound` when empty) a data entry (`UnDirectory`) — "the first language" -/
+def Node.groupData (ch : Node) : FRes (List UInt8) :=
+  (ch.asDir.bind Node.firstData).bind fun
+    | .data c _ => .ok c
+    | .dir .. => .error .unDirectory
+
+/-- `icons()` (`ty = RT_GROUP_ICON`) / `cursors()` (`ty = RT_GROUP_CURSOR`): for every entry of that
+type's directory, in stored order, its name and the data of its first language; nothing at all when
+the root has no such directory -/
+def Node.groups (t : Node) (ty : Nat) : List (RName × FRes (List UInt8)) :=
+  match t.getDir (.id ty) with
+  | .ok (.dir _ es) => es.toList.map fun p => (p.1, p.2.groupData)
+  | _ => []
+
+/-- `GroupResource::image(id)`: the first language of `/<RT_ICON | RT_CURSOR>/<id>` -/
+def Node.groupImage (t : Node) (g : GroupSpec) (id : Nat) : FRes Node := t.findResource (.id g.imageType) (.id id)
+
 /-! ### full traversal through the public API
 
 What a client sees that walks the tree with `entries()`, `name()`, `entry()`, `bytes()` and
